@@ -1,6 +1,7 @@
 //@ include-into src/structures/paging/mapper/mapped_page_table.rs
 //
-// C10: `CleanUp::clean_up_addr_range` / `CleanUp::clean_up` of MappedPageTable<P>.
+// C10: `CleanUp::clean_up_addr_range` of MappedPageTable<P> (`CleanUp::clean_up`, the whole address
+// space, does not finish: see the end of this file).
 // BOUNDED check: every harness runs the real function ONCE (and then once more, for the
 // "repeating deallocates nothing" clause) on one hand-picked, fully CONCRETE page-table hierarchy
 // and a concrete page range. See lib/C10_NOTES.md for why nothing about the tables may be symbolic
@@ -17,7 +18,8 @@
 //            the RAW words (SDM vol. 3A 4.5), independent of the crate's accessors; evaluated for ONE
 //            SYMBOLIC canonical address before and after the call, i.e. for every address.
 //   Log      the deallocator: frames in call order and, per call, the word the parent slot held at
-//            that moment and whether the table was all zero at that moment.
+//            that moment and the word the table held, at that moment, in one SYMBOLIC slot chosen
+//            before the call ("0 for every choice of the slot" = the table was entirely empty then).
 //   Scenario per harness: the 7 tables, the parent slot of every linked table, the range, and two
 //            hand-derived sets taken from the property statement:
 //              allowed[k]   table k is a level-1..3 table that overlaps the range and is empty or
@@ -27,6 +29,9 @@
 //            freed; the harnesses accept both.
 //   Frame    one symbolic (table, slot): the word is 0 if it is the parent slot of a freed table and
 //            unchanged otherwise - for all 7 x 512 words, in particular every table outside the range.
+//   ob!      every clause is `if pick == i && !cond { assert(false, "C10.<scenario>.<clause>: ..") }`
+//            and the `reachable` cover sits BEFORE the call under test: both because of what a
+//            counterexample trace through clean_up costs (C10_NOTES.md section 2).
 
 #[cfg(kani)]
 #[allow(dead_code)]
